@@ -10,6 +10,9 @@ World (numeric ids <-> real names, never sent to the model):
 
 Programs (JSON):  ["op", name, args...] | ["block", [prog...]] | ["try", prog] | ["fail"]
   ops: put d v | ingest mode d | assoc d | untag d | cert d | insdim g | expand g | purge d | unstore d | emptytrash
+       | transfer d   (Butler.transfer_from(source, [ref of slot d], transfer="copy"); the SOURCE repository <top>/src holds
+                       a dataset {"slot": d, "v": 200+d} for every slot, is shared read-only by all runs of a case, and
+                       its own SQL traffic is not instrumented)
   block = `with butler.transaction():`;  try = `try: ... except Exception: pass`;  fail = `raise UserFail`
 
 Instrumentation is applied from outside the package (no source hooks): SQLAlchemy engine events `before_cursor_execute`
@@ -201,12 +204,30 @@ class World:
         self.dt = self.butler.get_dataset_type("dt")
         self.escapes = []
         self._tables = None
+        self._src = None
 
     def close(self):
         try:
             self.butler._registry._db._engine.dispose()
         except Exception:  # noqa: BLE001
             pass
+        if self._src is not None:
+            try:
+                self._src._registry._db._engine.dispose()
+            except Exception:  # noqa: BLE001
+                pass
+
+    def src_butler(self):
+        """The source repository of transfer_from (created by run_cases next to the template; read-only).  Opening it and
+        resolving the ref is preparation, not part of the operation: not a boundary."""
+        if self._src is None:
+            from lsst.daf.butler import Butler
+            INJ.suspend += 1
+            try:
+                self._src = Butler.from_config(os.path.join(os.path.dirname(self.top), "src"), writeable=False)
+            finally:
+                INJ.suspend -= 1
+        return self._src
 
     # -- helpers ---------------------------------------------------------------------------
     def did(self, d):
@@ -253,6 +274,14 @@ class World:
             b.pruneDatasets([self.ref_of(a[0])], disassociate=False, unstore=True, purge=False)
         elif name == "emptytrash":
             b._datastore.emptyTrash()
+        elif name == "transfer":
+            sb = self.src_butler()
+            INJ.suspend += 1
+            try:
+                ref = sb.find_dataset("dt", self.did(a[0]), collections="run")
+            finally:
+                INJ.suspend -= 1
+            b.transfer_from(sb, [ref], transfer="copy")
         else:
             raise ValueError(f"unknown op {name}")
 
@@ -269,7 +298,7 @@ class World:
             # or Butler.transaction block) must leave everything as it was when the construct was entered
             # (the statement names Butler.transaction blocks and the additive operations put / ingest; insertDimensionData
             # failing at its second statement keeps its first row until the enclosing transaction ends -- not claimed)
-            watch = _additive(p[1]) and (p[1][0] == "block" or (p[1][0] == "op" and p[1][1] in ("put", "ingest")))
+            watch = _additive(p[1]) and (p[1][0] == "block" or (p[1][0] == "op" and p[1][1] in ("put", "ingest", "transfer")))
             before = self.light() if watch else None
             try:
                 self.run_prog(p[1])
@@ -438,6 +467,28 @@ def build_base(top, pre):
     return outs
 
 
+def _uses_transfer(p):
+    if p[0] == "op":
+        return p[1] == "transfer"
+    if p[0] == "block":
+        return any(_uses_transfer(q) for q in p[1])
+    if p[0] == "try":
+        return _uses_transfer(p[1])
+    return False
+
+
+def build_source(top):
+    """Source repository of transfer_from: same universe / dataset type / run name, one stored dataset per slot."""
+    src = os.path.join(top, "src")
+    _, b = fixture.make_repo(src)
+    fixture.add_instrument(b, name="I0", detectors=range(NSLOT), filters=())
+    fixture.add_dataset_type(b, "dt", is_calibration=True)
+    b.registry.registerRun("run")
+    for d in range(NSLOT):
+        b.put({"slot": d, "v": 200 + d}, "dt", {"instrument": "I0", "detector": d}, run="run")
+    b._registry._db._engine.dispose()
+
+
 def run_one(base, work, prog, at, flavour, follow=None):
     """Copy the template world, run `prog` with a fault at event `at` (None = fault-free), observe; then optionally run the
     follow-up programs fault-free (e.g. emptytrash) and observe again."""
@@ -485,6 +536,8 @@ def run_cases(payload):
         try:
             base = os.path.join(top, "base")
             os.makedirs(base)
+            if any(_uses_transfer(p) for p in list(case.get("pre", [])) + [case["prog"]]):
+                build_source(top)
             pre_out = build_base(base, case.get("pre", []))
             w = World(base)
             try:
